@@ -106,6 +106,10 @@ def skeleton(e, leaf):
         return "|" + ",".join(pat_name(p) for p in e["params"]) + "| " + skeleton(e["body"], leaf)
     if k == "field":
         return f"{skeleton(e['a'], leaf)}.{e['name']}"
+    if k == "struct":
+        return "struct{" + ", ".join(f"{n}: {skeleton(v, leaf)}" for n, v in e["fields"]) + "}"
+    if k == "unary" or k == "deref":
+        return f"(*{skeleton(e['a'], leaf)})" if "a" in e else k
     return k or "?"
 
 
@@ -128,3 +132,34 @@ def pat_ctor(p):
     if p["p"] == "expr":
         return p["v"].get("def"), []
     return None, []
+
+
+def let_map(body):
+    """binding id -> initialiser expression, for simple `let x = init;` statements (single binding pattern)"""
+    out = {}
+    for x in walk(body):
+        if x.get("e") == "block":
+            for s in x["stmts"]:
+                if s["s"] == "let" and s["init"] is not None and s["pat"].get("p") == "bind" and "Mut" not in s["pat"].get("mode", "").split(",")[-1]:
+                    out[s["pat"]["id"]] = s["init"]
+    return out
+
+
+def inlined(e, lets, depth=4, keep=()):
+    """skeleton of e with immutable let-bound locals replaced by their initialisers (robust to
+    extract-variable refactorings)."""
+    def leaf(n, d=[depth]):
+        if n.get("e") == "path" and n.get("res") == "Local" and n["id"] in lets and n["name"] not in keep and d[0] > 0:
+            d[0] -= 1
+            r = skeleton(lets[n["id"]], leaf)
+            d[0] += 1
+            return r
+        return None
+    return skeleton(e, leaf).replace("local:", "")
+
+
+def statements(body):
+    """every statement/expression node that is an assignment or compound assignment"""
+    for x in walk(body):
+        if x.get("e") in ("assign", "assignop"):
+            yield x
